@@ -1,5 +1,8 @@
 """C13 — No call changes its inputs, and results share no state with them."""
 import copy
+import os
+import sys
+import fcswriter
 import inspect
 import itertools
 
@@ -225,6 +228,9 @@ class Prop(common.PropertyCheck):
             for sl in ('1:3', '::-1', '2:', 'list', 'mask+1:'):
                 for kind in ('int', 'float'):
                     yield {'k': 'derived', 'q1': q1, 'sl': sl, 'data': kind}
+        # answers in this process (after queries on an almost identical sample) equal the answers of a fresh interpreter
+        for i, delta in enumerate([2e-4, 1e-3, 0.0, 7e-5][:self.budget(3, 4)]):
+            yield {'k': 'xproc', 'delta': delta, 'first': ['hist_bins', 'transform', 'hist_bins', 'density'][i], 'seed': 11 + i}
         for _ in range(self.budget(150, 1500)):
             ops = [{'t': 'load', 'n': 4}]
             nobj = 1
@@ -252,6 +258,56 @@ class Prop(common.PropertyCheck):
         s, _ = samples.load(spec, name='c13_%s.fcs' % kind)
         return s
 
+    XPROC_QUERIES = r'''
+import sys, json, struct
+import numpy as np
+import FlowCal
+def bits(a):
+    return [struct.pack('<d', float(v)).hex() for v in np.asarray(a, dtype=float).ravel()]
+def queries(path):
+    d = FlowCal.io.FCSData(path)
+    out = {}
+    out['hist_bins_logicle'] = bits(d.hist_bins(0, nbins=16, scale='logicle'))
+    out['hist_bins_all'] = [bits(b) for b in d.hist_bins(nbins=8, scale='logicle')]
+    t = FlowCal.plot._LogicleTransform(data=d, channel=0)
+    out['transform'] = bits(t.transform_non_affine(np.linspace(0., t.M, 9)))
+    out['inverse'] = bits(t.inverted().transform_non_affine(np.array([-90., 0., 3., 500., 9000.])))
+    out['density2d'] = [bool(v) for v in FlowCal.gate.density2d(d, channels=[0, 1], gate_fraction=0.5, full_output=True).mask]
+    out['hist_bins_log'] = bits(d.hist_bins(1, nbins=8, scale='log'))
+    return out
+'''
+
+    def run_xproc(self, case):
+        import random, struct, subprocess, json as _json
+        r = random.Random(case['seed'])
+
+        def f32(x):
+            return struct.unpack('<I', struct.pack('<f', x))[0]
+        base = [[r.uniform(5, 9000), r.uniform(5, 9000)] for _ in range(60)]
+
+        def write(low, name):
+            ev = [[f32(low), f32(40.0)]] + [[f32(a), f32(b)] for a, b in base]
+            spec = {'version': 'FCS3.0', 'delim': '/', 'datatype': 'F', 'byteord': '1,2,3,4', 'widths': [32, 32], 'ranges': [262144, 262144],
+                    'events': ev, 'names': ['FL1-A', 'FL2-A'], 'pne': {'1': '0,0', '2': '0,0'}}
+            data, _ = fcswriter.build(spec)
+            return fcsgen.write_tmp(data, name=name)
+        pa, pb = write(-100.0, 'c13_xa.fcs'), write(-100.0 - case['delta'], 'c13_xb.fcs')
+        ns = {}
+        exec(self.XPROC_QUERIES, ns)
+        try:
+            qa = ns['queries'](pa)              # queries on the neighbouring sample first
+            here = ns['queries'](pb)
+        except Exception as e:
+            return {'err': type(e).__name__ + ':' + str(e)[:80]}
+        env = dict(os.environ)
+        code = 'import sys\n' + ('sys.path.insert(0, %r)\n' % common.REPO) + self.XPROC_QUERIES + '\nprint(json.dumps(queries(%r)))' % pb
+        p = subprocess.run([sys.executable, '-W', 'ignore', '-c', code], capture_output=True, text=True, env=env, timeout=300)
+        if p.returncode != 0:
+            return {'err': 'fresh interpreter failed: ' + p.stderr[-200:]}
+        alone = _json.loads(p.stdout.strip().splitlines()[-1])
+        diff = [k for k in sorted(here) if here[k] != alone[k]]
+        return {'diff': diff, 'nq': len(here), 'first_differs': [k for k in sorted(here) if qa[k] != here[k]]}
+
     def snapshot(self, args):
         return {k: fpm.any_fp(v) for k, v in args.items() if not callable(v) and k not in ('sc_list',)}, \
                {k: sorted(deep_ids(v)) for k, v in args.items() if not callable(v)}
@@ -260,6 +316,8 @@ class Prop(common.PropertyCheck):
         np.random.seed(case.get('seed', 1) % (1 << 31))
         if case['k'] == 'history':
             return self.run_history(case)
+        if case['k'] == 'xproc':
+            return self.run_xproc(case)
         if case['k'] == 'derived':
             return self.run_derived(case)
         s = self.sample(case['data'], 0)
@@ -490,6 +548,8 @@ class Prop(common.PropertyCheck):
     def oracle(self, case, impl):
         if 'err' in impl:
             self.bump('call-raised')
+            if case['k'] == 'xproc':
+                return 'queries on a float sample with one negative event raised %s' % impl['err']
             if case['k'] == 'call':
                 return 'call %s on %s data raised %s' % (case['call'], case['data'], impl['err'])
             if case['k'] == 'derived':
@@ -511,6 +571,11 @@ class Prop(common.PropertyCheck):
                 return 'result of %s shares the event buffer with its input' % c
             if not impl['sample_same_after_result_edit']:
                 return 'editing the metadata of the result of %s changed the input' % c
+            return None
+        if case['k'] == 'xproc':
+            if impl['diff']:
+                return ('queries %s on a sample answered differently after the same queries on a sample whose most negative event differs by %g '
+                        'than in a fresh interpreter' % (impl['diff'], case['delta']))
             return None
         if case['k'] == 'derived':
             if not impl['same']:
@@ -557,4 +622,6 @@ class Prop(common.PropertyCheck):
             return ('pair', case['q1'], case['q2'], case['data'])
         if case['k'] == 'derived':
             return ('derived', case['q1'], case['sl'], case['data'])
+        if case['k'] == 'xproc':
+            return ('xproc', case['delta'])
         return ('hist', tuple(o['t'] + o.get('how', '') for o in case['ops']))
